@@ -117,12 +117,16 @@ def load_known():
 
 def match_known(open_entries, pid, sub, viol: Violation):
     for ent in open_entries:
-        if ent.get("property") != pid or ent.get("sub") != sub:
+        if ent.get("property") != pid:
             continue
-        k = ent.get("kind")
-        if k and not viol.kind.startswith(k):
+        subs = ent.get("subs") or [ent.get("sub")]
+        if "*" not in subs and sub not in subs:
             continue
-        if all(viol.tags.get(a) == b for a, b in (ent.get("match") or {}).items()):
+        kinds = ent.get("kinds") or ([ent["kind"]] if ent.get("kind") else [])
+        if kinds and not any(viol.kind.startswith(k) for k in kinds):
+            continue
+        if all((viol.tags.get(a) in b) if isinstance(b, list) else (viol.tags.get(a) == b)
+               for a, b in (ent.get("match") or {}).items()):
             return ent
     return None
 
